@@ -76,6 +76,8 @@ def replay_mirror(stmts):
         elif k == "backward":
             seed = s.get("seed")
             b.backward(b.tensors[s["t"]], None if seed is None else np.asarray(seed["vals"], dtype=np.int64).reshape(seed["shape"]), non_owning=bool(seed and seed.get("non_owning")))
+            if s.get("new_epoch"):
+                b.new_epoch()
         elif k == "clear":
             b.clear(b.tensors[s["t"]])
         elif k == "null_grad":
